@@ -3,6 +3,7 @@
 from __future__ import annotations
 
 import ast
+import re
 import copy
 
 from .emit import KIND_FLAGS, inotify_event_implications
@@ -68,6 +69,14 @@ class ReaderCfg(Cfg):
 
     def canon_event_text(self, text: str) -> str:
         return text
+
+    def canon_atom(self, text, st):
+        # `map.pop(k, None) is None` decides the same thing as `k not in map` (the removal itself is recorded by the call event)
+        for m in MAPS:
+            mm = re.fullmatch(rf"{re.escape(m)}\.pop\((.+), None\) is None", text)
+            if mm:
+                return f"!{mm.group(1)} in {m}"
+        return super().canon_atom(text, st)
 
     def consistent(self, val):
         # the watch maps are keyed by paths (bytes): `None` (an unknown move source) is never a key
@@ -141,7 +150,8 @@ def key_guard(st, c: str, k: str) -> str | None:
     for a, t in st.val.items():
         if t and a.startswith(f"{c}.get({k})") and ("==" in a or " is not None" in a) and not a.endswith("== None"):
             return "dominating .get() comparison"
-    if k.startswith(f"$elem({c}.copy())") or k.startswith(f"$elem({c})") or k.startswith(f"$elem(list({c}") or k.startswith(f"$elem(tuple({c}"):
+    filtered = re.match(rf"\$elem\(\[(\w+) for \1 in {re.escape(c)}(\.keys\(\))? if ", k) is not None  # element of an eager, filtered snapshot of the keys
+    if filtered or k.startswith(f"$elem({c}.copy())") or k.startswith(f"$elem({c})") or k.startswith(f"$elem(list({c}") or k.startswith(f"$elem(tuple({c}"):
         alive = True
         for e in st.evs:
             if (e.kind == "del" and e.extra.get("container") == c and e.extra.get("key") == k) or (e.kind == "call" and e.extra.get("func") == f"{c}.pop" and (e.extra.get("args") or [""])[0] == k):
